@@ -72,6 +72,13 @@ def m_shared_deref(eng, ctx, f, path, args, dty):
     return shared(sid(eng, ctx, args[0]))
 
 
+def m_shared_as_ref(eng, ctx, f, path, args, dty):
+    """Shared::as_ref: None for the null pointer, Some(&T) otherwise (crossbeam-epoch documentation)"""
+    i = sid(eng, ctx, args[0])
+    isnull = i == 0
+    return Fork([(isnull, Enum(0, {}, "Option")), (z3.Not(isnull), Enum(1, {1: Agg({0: shared(i)})}, "Option"))])
+
+
 def m_zeroed(eng, ctx, f, path, args, dty):
     return Native("zeroed", path)
 
@@ -168,7 +175,8 @@ def bucket_models(block_size):
         r"crossbeam_epoch::Atomic::null$": m_shared_null,
         r"Shared::null$": m_shared_null,
         r"Shared::is_null$": m_is_null,
-        r"Shared::deref$": m_shared_deref,
+        r"Shared::deref$|Shared::deref_mut$": m_shared_deref,
+        r"Shared::as_ref$": m_shared_as_ref,
         r"Owned::new$": m_owned_new(block_size),
         r"Owned as Deref(Mut)?>::deref(_mut)?$": m_owned_deref,
         r"MaybeUninit::zeroed$": m_zeroed,
